@@ -71,6 +71,7 @@ class TypedGen:
         self.share_p = share_p
         self.pool = {"int": [], "num": [], "bool": []}
         self.hist = hist
+        self.wide_p = 0.012
         self.V = {n: p.Variable(n) for n in "xyzstfgamo"}
 
     def _note(self, e):
@@ -113,6 +114,19 @@ class TypedGen:
         s = self._shared("int")
         if s is not None:
             return s
+        if r.random() < self.wide_p:
+            # a WIDE node (9 .. 100 operands, shallow children): fast paths for the small case,
+            # pairwise reductions and chunked buffers only differ past a threshold
+            from . import scale
+            w = r.choice(scale.SMALL_WIDTHS + [100])
+            cls = r.choice([c for kk, c in (("sum", p.Sum), ("prod", p.Product), ("min", p.Min),
+                                            ("max", p.Max), ("bor", p.BitwiseOr), ("bxor", p.BitwiseXor),
+                                            ("band", p.BitwiseAnd)) if kk in self.int_kinds]
+                           or [p.Sum])
+            e = cls(tuple(self.int(min(d - 1, 1)) for _ in range(w)))
+            if self.hist is not None:
+                self.hist["wide-node"] += 1
+            return self._note(e)
         k = r.choice(self.int_kinds)
         g = lambda: self.int(d - 1)  # noqa: E731
         V = self.V
@@ -238,11 +252,17 @@ class TypedGen:
         return self.bool(d)
 
 
+ATTR_NAMES = ["attr", "max_", "max", "_x", "x_", "x", "n_1_", "n_1", "lambda_", "lambda", "if_",
+              "__d", "d__", "A", "a", "attr_", "_", "k2"]
+
+
 class Obj:
     """Object bound to variable `o` (attribute lookups)."""
 
     def __init__(self, attr):
         self.attr = attr
+        for i, nm in enumerate(ATTR_NAMES[1:]):     # every name its own value
+            setattr(self, nm, attr + 10 * (i + 1))
 
     def __eq__(self, other):
         return isinstance(other, Obj) and other.attr == self.attr
@@ -328,6 +348,7 @@ class AnyGen:
         self.pool = []
         self.hist = hist
         self.falsy_p = 0.04
+        self.wide_p = 0.012 if "tuple" in self.kinds else 0.0
 
     def leaf(self):
         r = self.r
@@ -351,6 +372,17 @@ class AnyGen:
         if self.pool and r.random() < self.share_p:
             e = r.choice(self.pool)
             return e if r.random() < 0.5 else _rebuild(e)
+        if r.random() < self.wide_p:
+            from . import scale
+            w = r.choice(scale.SMALL_WIDTHS + [100])
+            kids = tuple(self.gen(min(d - 1, 1)) for _ in range(w))
+            mk = r.choice([p.Sum, p.Product, p.Min, p.Max, p.BitwiseOr, p.LogicalAnd,
+                           lambda t: p.Call(p.Variable("f"), t),
+                           lambda t: p.Subscript(p.Variable("a"), t),
+                           lambda t: t])
+            if self.hist is not None:
+                self.hist["wide-node"] += 1
+            return mk(kids)
         if r.random() < self.falsy_p:
             # composite nodes that are FALSE in a boolean context (bool(Product((0, x))) is
             # False) and still mention a variable: `if child:`, `filter(None, ...)` and
